@@ -71,6 +71,15 @@ func (t *tr) evalModItem(item ast.Expr, env *senv, pre map[string]string) (out [
 				}
 				return []modTarget{{heap: "G_" + id.Name, keys: ks, kind: 3}}, nil
 			}
+			if id.Name == "alltype" && len(x.Args) == 1 {
+				// alltype("pkg/path.T"): every object of that allocation type, in every component heap its cells use
+				ty := c.typeOfArg(x.Args[0])
+				tag := fmt.Sprint(t.eng.tag(ty))
+				for _, ls := range uniq(leaves(ty)) {
+					out = append(out, modTarget{heap: "H_" + ls, obj: [2]string{tag, ""}, kind: 5})
+				}
+				return out, nil
+			}
 			if id.Name == "heapof" && len(x.Args) == 1 {
 				// heapof("sort"): a whole component heap
 				if bl, ok := x.Args[0].(*ast.BasicLit); ok {
@@ -81,6 +90,14 @@ func (t *tr) evalModItem(item ast.Expr, env *senv, pre map[string]string) (out [
 	case *ast.StarExpr:
 		// *p : the whole object p points into
 		p := c.eval(x.X)
+		if p.sort == "iface" {
+			// *i for an interface value: the whole object its payload pointer refers to, whatever its type
+			term := c.rv1(p)
+			for _, ls := range realHeapSorts {
+				out = append(out, modTarget{heap: "H_" + ls, obj: [2]string{"(ltyp (iloc " + term + "))", "(lref (iloc " + term + "))"}, kind: 1})
+			}
+			return
+		}
 		pt, ok := p.ty.Underlying().(*types.Pointer)
 		if !ok {
 			return nil, fmt.Errorf("modifies *%s: not a pointer", types.ExprString(x.X))
@@ -151,6 +168,17 @@ func (t *tr) modItemHeaps(fs *FuncSpec, item ast.Expr) []string {
 			if id.Name == "heapof" {
 				if bl, ok := x.Args[0].(*ast.BasicLit); ok {
 					return []string{"H_" + unquote(bl.Value)}
+				}
+			}
+			if id.Name == "alltype" {
+				if bl, ok := x.Args[0].(*ast.BasicLit); ok {
+					if ty := t.eng.typeByName(unquote(bl.Value), nil); ty != nil {
+						var hs []string
+						for _, ls := range uniq(leaves(ty)) {
+							hs = append(hs, "H_"+ls)
+						}
+						return hs
+					}
 				}
 			}
 		}
@@ -252,6 +280,8 @@ func frameExpr(old, nw string, targets []modTarget) (string, bool) {
 			g.cells = append(g.cells, c)
 		case 3:
 			expr = storeKeys(expr, nw, m.keys)
+		case 5:
+			expr = fmt.Sprintf("(store %s %s (select %s %s))", expr, m.obj[0], nw, m.obj[0])
 		}
 	}
 	for _, g := range groups {
@@ -341,6 +371,8 @@ func (t *tr) frameGoal(h, cur string, targets []modTarget, ty, ref string) strin
 		switch m.kind {
 		case 1:
 			ante = append(ante, fmt.Sprintf("(not (and (= %s %s) (= %s %s)))", ty, m.obj[0], ref, m.obj[1]))
+		case 5:
+			ante = append(ante, fmt.Sprintf("(not (= %s %s))", ty, m.obj[0]))
 		case 2:
 			a, b, c := locParts(m.loc)
 			g := gidx[a+"|"+b]
